@@ -150,8 +150,8 @@ def inductive(ctx, ndev, nf):
         ctx.prove(not keys or d in new, "inductive-invariant")
 
 
-@harness("C10.threads", quick=[dict(P=1)], thorough=[dict(P=2)], timeout_ms=5000)
-def threads(ctx, P):
+@harness("C10.threads", quick=[dict(P=1), dict(P=1, clear=True)], thorough=[dict(P=2), dict(P=2, clear=True)], timeout_ms=5000)
+def threads(ctx, P, clear=False):
     """two threads calling net_io_counters(nowrap=True) at once, each seeing its own kernel snapshot (source-line granularity,
     at most P pre-emptions): the pair of results equals that of one of the two serial orders"""
     from psv import sched
@@ -163,10 +163,31 @@ def threads(ctx, P):
     cur = {"raw": s0}
 
     def platform():
-        v = cur["raw"] if S.current is None else raw[S.current]
+        v = cur["raw"] if (S.current is None or cur.get("serial")) else raw[S.current]
         return {"d0": (v, 5, 5, 5, 5, 5, 5, 5)}
 
-    extra = [(_pslinux, "net_io_counters", platform), (_common._wn, "lock", sched.SchedLock(S, False))]
+    # every lock the code creates while the scheduler is installed is scheduler-aware too (threading is replaced in _common as well)
+    extra = [(_pslinux, "net_io_counters", platform), (_common._wn, "lock", sched.SchedLock(S, False)), (_common, "threading", sched.ThreadingProxy(S))]
+    if clear:
+        # thread B clears the cache while thread A is inside a nowrap=True call: A's result is that of "A then clear" or "clear then A"
+        # (raw + carry, or raw), nothing raises, and afterwards the history is gone or consistent (a further call works)
+        with k.installed(extra=extra):
+            psutil.net_io_counters(pernic=True, nowrap=True)                   # history: s0
+            res = S.run([lambda: psutil.net_io_counters(pernic=True, nowrap=True)["d0"][0], lambda: psutil.net_io_counters.cache_clear()])
+            cur["raw"], cur["serial"] = raw[0], True
+            try:
+                later, lexc = psutil.net_io_counters(pernic=True, nowrap=True)["d0"][0], None
+            except Exception as e:  # noqa: BLE001
+                later, lexc = None, e
+        for i in (0, 1):
+            ctx.prove(res[i][0] == "ok", "threads-no-exception", detail=f"{res[i][1]!r} pre-emptions {S.trace}")
+        ctx.prove(lexc is None, "threads-no-exception", detail=f"the call after the concurrent cache_clear(): {lexc!r} pre-emptions {S.trace}")
+        if res[0][0] == "ok":
+            carry = ctx.ite(raw[0] < s0, s0, 0)
+            ctx.prove(ctx.any([ctx.eq(res[0][1], raw[0] + carry), ctx.eq(res[0][1], raw[0])]), "threads-equal-a-serial-order", detail=f"pre-emptions {S.trace}")
+            if lexc is None:
+                ctx.prove(ctx.any([ctx.eq(later, raw[0] + carry), ctx.eq(later, raw[0])]), "threads-equal-a-serial-order", detail=f"later call; pre-emptions {S.trace}")
+        return
     with k.installed(extra=extra):
         psutil.net_io_counters(pernic=True, nowrap=True)                       # history: s0
         res = S.run([lambda: psutil.net_io_counters(pernic=True, nowrap=True)["d0"][0], lambda: psutil.net_io_counters(pernic=True, nowrap=True)["d0"][0]])
